@@ -310,11 +310,13 @@ class C03(Prop):
             kind, opcode, payload, rsv1 = exp
             if f.opcode != opcode:
                 return failed("wrong_opcode", what + ": opcode %d expected %d" % (f.opcode, opcode), labels, nontrivial)
-            if f.rsv1 != rsv1:
-                return failed("wrong_rsv1", what + ": RSV1=%d expected %d (negotiated=%s)" % (
-                    f.rsv1, rsv1, negotiated), labels, nontrivial)
+            # RSV1 may be set only if compression was negotiated and requested (``rsv1`` == 1);
+            # sending a requested-compressed message uncompressed is legal per message
+            if f.rsv1 and not rsv1:
+                return failed("wrong_rsv1", what + ": RSV1 set although compression was not negotiated/requested "
+                              "(negotiated=%s)" % negotiated, labels, nontrivial)
             body = f.payload
-            if rsv1:
+            if f.rsv1:
                 try:
                     body = peer.inflate(body)
                 except deflateref.InflateError as error:
